@@ -122,8 +122,9 @@ type MethodSpec struct {
 }
 
 // synthFile builds `<pkg>.proto`: package pkg, go_package example.com/gen/<pkg>, importing
-// gorums.proto (and empty.proto when used), messages Request/Response/MyResponse, service Svc.
-func (t *Tree) synthFile(pkg string, methods []MethodSpec) *descriptorpb.FileDescriptorProto {
+// gorums.proto (and empty.proto when used, and the files named in imports), messages
+// Request/Response/MyResponse, service Svc.
+func (t *Tree) synthFile(pkg string, methods []MethodSpec, imports ...string) *descriptorpb.FileDescriptorProto {
 	fdp := &descriptorpb.FileDescriptorProto{
 		Name:        proto.String(pkg + ".proto"),
 		Package:     proto.String(pkg),
@@ -156,9 +157,28 @@ func (t *Tree) synthFile(pkg string, methods []MethodSpec) *descriptorpb.FileDes
 	if usesEmpty {
 		fdp.Dependency = append(fdp.Dependency, "google/protobuf/empty.proto")
 	}
+	fdp.Dependency = append(fdp.Dependency, imports...)
 	fdp.Service = []*descriptorpb.ServiceDescriptorProto{svc}
 	return fdp
 }
+
+// synthDepFile builds the message-only file `<name>_<k>.proto` that service s<k> imports: proto package
+// `<name>x<k>`, go_package `example.com/gen/s<k>dep/<name>` (so the Go package NAME is exactly <name>),
+// one message `Item { string value = 1; }`.
+func synthDepFile(name string, k int) *descriptorpb.FileDescriptorProto {
+	return &descriptorpb.FileDescriptorProto{
+		Name:        proto.String(fmt.Sprintf("%s_%d.proto", name, k)),
+		Package:     proto.String(fmt.Sprintf("%sx%d", name, k)),
+		MessageType: []*descriptorpb.DescriptorProto{{Name: proto.String("Item"), Field: []*descriptorpb.FieldDescriptorProto{strField("value", 1)}}},
+		Options:     &descriptorpb.FileOptions{GoPackage: proto.String(depGoPkg(name, k))},
+		Syntax:      proto.String("proto3"),
+	}
+}
+
+// depPkgDir is the directory (relative to the scratch module) of the dependency package of service s<k>.
+func depPkgDir(name string, k int) string { return fmt.Sprintf("s%ddep/%s", k, name) }
+
+func depGoPkg(name string, k int) string { return "example.com/gen/" + depPkgDir(name, k) }
 
 func rowPkg(id int) string { return fmt.Sprintf("p%d", id) }
 
@@ -192,9 +212,9 @@ func (t *Tree) Request(fdp *descriptorpb.FileDescriptorProto, parameter, preferD
 	return proto.MarshalOptions{Deterministic: true}.Marshal(req)
 }
 
-var rePkgName = regexp.MustCompile(`\b[ps]\d+(\b|_)`)
+var rePkgName = regexp.MustCompile(`\b[ps]\d+(\b|_|dep\b)`)
 
-// normNames replaces the row specific package names (p<row>, s<k>) by "pN".
+// normNames replaces the row specific package names (p<row>, s<k>, s<k>dep) by "pN" ("pNdep").
 func normNames(s string) string { return rePkgName.ReplaceAllString(s, "pN$1") }
 
 // classifyDiag maps a diagnostic to a short class.
